@@ -396,6 +396,25 @@ def run(ctx):
                 ctx.violation(sig=f"factory-shape:{name}", what=f"{name} built for shape {s} declares shape {tuple(b.shape)}",
                               case=dict(cls=name, shape=list(s)), found_input=True, unit=ul.name)
                 continue
+            if tuple(s) != ():
+                # python scalars / 0-d values are inputs of shape (): a bijection of another shape must reject them in every form
+                # (python float, python int, NumPy scalar, 0-d NumPy / jax array) -- seeded change C13e broadcast python scalars
+                import jax.numpy as _jnp
+
+                c_ok = None if b.cond_shape is None else _jnp.full(tuple(b.cond_shape), 0.25)
+                for form, val in (("python float", 0.5), ("python int", 1), ("numpy scalar", np.float64(0.5)), ("0-d numpy array", np.asarray(0.5)), ("0-d jax array", _jnp.asarray(0.5))):
+                    for m in METHODS:
+                        ul.count(f"{name}|{s}|{m}|{form}", nontrivial=True, tag="scalar-forms")
+                        try:
+                            out = getattr(b, m)(val, c_ok)
+                        except NotImplementedError:
+                            continue
+                        except Exception:  # noqa: BLE001  rejected: fine
+                            continue
+                        shp = tuple(np.shape(out[0] if isinstance(out, tuple) else out))
+                        ctx.violation(sig=f"lattice:{name.split('[')[0]}:{m}:scalar-accepted", what=f"{name}{s}.{m} ACCEPTED a {form} ({val!r}, shape ()) although its shape is {s}; returned shape {shp}",
+                                      case=dict(cls=name, shape=list(s), method=m, form=form), found_input=True, unit=ul.name, expected="raise", observed=f"value of shape {shp}",
+                                      broken="lattice-unit: strict shape check for scalar inputs / C13_reject_bad_x")
             try:
                 term = S.ser(b, opaque_unknown=True)
             except S.Unsupported as e:
